@@ -164,6 +164,18 @@ func vfRunProbe(p vfProbe, uid string, port int, failLine []byte, adopted <-chan
 		return res
 	}
 	defer conn.Close()
+	if p.Kind == "early_right_greeting" {
+		// connected (and accepted) while nobody has been adopted yet, silent until the genuine connection has been adopted, and only
+		// then presenting the right greeting: a second connection, which must never be used
+		select {
+		case <-adopted:
+		case <-time.After(5 * time.Second):
+			res.err = "the genuine connection was never adopted: greeting not sent"
+			res.closed = true
+			return res
+		}
+		time.Sleep(20 * time.Millisecond)
+	}
 	hello, _ := getHelloConstant(uid, port)
 	switch p.Kind {
 	case "wrong_greeting":
@@ -176,7 +188,7 @@ func vfRunProbe(p vfProbe, uid string, port int, failLine []byte, adopted <-chan
 		conn.Write([]byte("::TRZSZ::CLIENT::HELLO::"))
 	case "greeting_plus":
 		conn.Write([]byte(hello + "\n#fail:x\n"))
-	case "right_greeting":
+	case "right_greeting", "early_right_greeting":
 		conn.Write([]byte(hello))
 		res.sentGood = true
 	case "split_greeting":
@@ -408,7 +420,7 @@ func vfGenC17(rt *rapid.T) vfC17Case {
 	n := rapid.IntRange(0, 4).Draw(rt, "nprobes")
 	for i := 0; i < n; i++ {
 		cs.Probes = append(cs.Probes, vfProbe{
-			Kind:    rapid.SampledFrom([]string{"wrong_greeting", "wrong_id", "wrong_port_text", "prefix_only", "greeting_plus", "right_greeting", "split_greeting", "silence", "flood"}).Draw(rt, "kind"),
+			Kind:    rapid.SampledFrom([]string{"wrong_greeting", "wrong_id", "wrong_port_text", "prefix_only", "greeting_plus", "right_greeting", "early_right_greeting", "early_right_greeting", "split_greeting", "silence", "flood"}).Draw(rt, "kind"),
 			DelayMs: rapid.SampledFrom([]int{0, 0, 5, 20, 60, 200}).Draw(rt, "delay"),
 			Fail:    rapid.Bool().Draw(rt, "fail"),
 		})
